@@ -369,6 +369,8 @@ def execute(spec, w, ctx):
                 run = proc.mod("conditionalrewards").run_games
                 first = None
                 for k in range(times):
+                    if k % 64 == 0 and not w.quiet_budget_left():
+                        break
                     r_ = run(arg)
                     cur = canon({n_: {f: x for f, x in e.items() if f != "total_time"} for n_, e in r_.items()})
                     if first is None:
